@@ -122,6 +122,11 @@ func (n *Namespace) Verify() error {
 		return err
 	}
 
+	// the proxy refuses to load a namespace with a negative down_after_no_alive
+	if n.DownAfterNoAlive < 0 {
+		return errors.New("down_after_no_alive should not be negative")
+	}
+
 	n.verifyCapability()
 	n.verifyDefaultSessionVariables()
 
